@@ -84,7 +84,7 @@ PLANS["C02"] = Plan(
 ER = "moptipyapps.ttp.errors"
 PLANS["C07"] = Plan(
     "C07", "other",
-    functions=[ER + ":count_errors"],
+    functions=[ER + ":count_errors", ER + ":count_errors#complete"],
     lemmas=["tri_bound", "trin_closed", "trin_nonneg", "trin_mono", "trin_up", "trin_dn", "trin_inj_all", "pm_range", "pm_ge"],
     bounded=[bounded.ttp_errors.harness],
     explanation="proved on count_errors: every array access in range for every plan with entries in -n..n (self-play included), "
@@ -96,8 +96,11 @@ PLANS["C07"] = Plan(
                 "lengths hs / aw; maximum on every day, minimum at every streak end incl. the end of the plan), and repeated "
                 "meetings of a pairing respect the separation limits (triangular scratch table = recursive previous-meeting "
                 "day per pair, slots of different pairs proved distinct; the second scan of a pair is shown to be skipped by "
-                "consistency) - i.e. a plan with value 0 is a feasible schedule. "
-                "bounded (exhaustive): the converse (feasible implies 0) and value == documented "
+                "consistency) - i.e. a plan with value 0 is a feasible schedule; and conversely (second contract "
+                "count_errors#complete on the same real function): for a plan that satisfies these four clauses every "
+                "statement that adds to the counter is unreachable or adds 0, so the value is 0 - zero if and only if "
+                "feasible, for all sizes and limits (generated feasible plans witness that the hypothesis is satisfiable). "
+                "bounded (exhaustive): value == documented "
                 "per-rule count against a statement-derived executable specification over ALL 12^6 consistent 4-team plans x "
                 "constraint settings, plus random plans",
     assumptions=["the error counter is treated as a mathematical integer (no int64 overflow obligation: a bound needs "
@@ -553,12 +556,16 @@ META = {
     "C07": {"text": "count_errors proved memory-safe, stateless w.r.t. its scratch arrays, non-negative, and zero only for plans "
                     "in which every team plays every day consistently, every pairing occurs the prescribed number of times "
                     "with balanced roles, no streak leaves its permitted range and repeated pairings respect the separation "
-                    "limits - a plan with value 0 is feasible (all plans, all sizes, all limits); the converse direction and "
-                    "the per-rule count are decided exhaustively for all 12^6 four-team plans x constraint settings against an "
-                    "executable specification written from the statement; declared upper bound: known finding F4",
-            "note": "level 'other': proof for the clauses a contract can carry + exhaustive bounded enumeration for the "
-                    "combinatorial clauses; integer counter treated as mathematical",
-            "technique": "contract-based deductive verification + exhaustive bounded enumeration (12^6 plans) vs executable spec"},
+                    "limits, and conversely - value 0 if and only if feasible (all plans, all sizes, all limits); "
+                    "the exact per-rule count of infeasible plans is decided exhaustively for all 12^6 four-team plans x "
+                    "constraint settings against an executable specification written from the statement; declared upper "
+                    "bound: known finding F4",
+            "note": "level 'other': zero-iff-feasible, non-negativity and memory safety are proved; the exact value for "
+                    "infeasible plans is bounded (exhaustive for four teams); the upper-bound clause is violated by the "
+                    "repository (known finding F4); integer counter treated as mathematical",
+            "technique": "contract-based deductive verification (two contracts on the real kernel: soundness and completeness "
+                         "of the zero test; recursive counts, streak lengths, previous-meeting days; induction lemmas) + "
+                         "exhaustive bounded enumeration (12^6 plans) vs executable spec"},
     "C02": {"text": "all six njit objective kernels proved equal to recursive spec functions for arbitrary row order (bins, item "
                     "count, covered area, least filled bin as attained minimum, area under the skyline of the last / lowest "
                     "bin via segment lemmas); declared bounds, to_bin_count and strict dominance proved as one-sided method "
